@@ -207,6 +207,10 @@ func freshEscapes(u *unit) *Sol {
 						fresh[o] = true
 					}
 				}
+				// a constructor of the repository: every return is a fresh literal
+				if isFreshConstructorCall(info, c) {
+					fresh[o] = true
+				}
 			}
 		}
 		return true
@@ -235,6 +239,16 @@ func freshEscapes(u *unit) *Sol {
 					if p.X == id {
 						if fieldOf(info, p) != nil {
 							return true // field access
+						}
+						// a private method that keeps its receiver to itself (sub.updateDegrees())
+						if len(stack) >= 3 {
+							if call, isC := stack[len(stack)-3].(*ast.CallExpr); isC && unparen(call.Fun) == ast.Expr(p) {
+								if cal := callee(info, call); cal != nil && !cal.Exported() && theWorld != nil {
+									if t := theWorld.Decls[cal]; t != nil && keepsReceiverPrivate(t) {
+										return true
+									}
+								}
+							}
 						}
 					}
 				case *ast.AssignStmt:
@@ -414,12 +428,30 @@ func checkDiscipline(w *World, r *Report, la *LockAnalysis, filter func(sharedSt
 		if o == nil {
 			return false
 		}
+		// a local of the struct type itself (clone := *d): the access touches the function's own copy
+		if v, isV := o.(*types.Var); isV && !v.IsField() && !isPointerType(v.Type()) {
+			if _, isSt := v.Type().Underlying().(*types.Struct); isSt && a.Unit.body.Pos() <= v.Pos() && v.Pos() < a.Unit.body.End() {
+				addrTaken := false
+				ast.Inspect(a.Unit.body, func(n ast.Node) bool {
+					if u, ok := n.(*ast.UnaryExpr); ok && u.Op == token.AND && n.Pos() < a.Pos() && objOf(a.Unit.pkg.TypesInfo, u.X) == o {
+						addrTaken = true
+					}
+					return true
+				})
+				if !addrTaken {
+					return true
+				}
+			}
+		}
 		// is it a fresh variable at all? (it has an esc fact universe only if fresh)
 		isFresh := false
 		ast.Inspect(a.Unit.body, func(n ast.Node) bool {
 			if as, ok := n.(*ast.AssignStmt); ok && len(as.Lhs) == len(as.Rhs) {
 				for i, l := range as.Lhs {
 					if objOf(a.Unit.pkg.TypesInfo, l) == o && litOf(as.Rhs[i]) != nil {
+						isFresh = true
+					}
+					if c, isC := unparen(as.Rhs[i]).(*ast.CallExpr); isC && objOf(a.Unit.pkg.TypesInfo, l) == o && isFreshConstructorCall(a.Unit.pkg.TypesInfo, c) {
 						isFresh = true
 					}
 				}
@@ -476,6 +508,10 @@ func checkDiscipline(w *World, r *Report, la *LockAnalysis, filter func(sharedSt
 					r.OK("R09.1", construct, a.Pos(), true, "written under %s", ss.ownerLock)
 					continue
 				}
+			}
+			if isFreshAccess(a) {
+				r.OK("R09.1", construct, a.Pos(), true, "written on a record that is still private to the writing function (a fresh literal or a local copy)")
+				continue
 			}
 			r.Fail("R09.1", construct, a.Pos(), "field %s.%s is written (%s) outside the functions that construct a %s and without %s held: the record is shared once published (locks held: %v)",
 				ss.name, a.Field.Name(), a.Kind, ss.name, orNone(ss.ownerLock), lockFactsOf(held))
@@ -825,4 +861,60 @@ func viaBackReference(a *Access) bool {
 	}
 	_, isId := unparen(sel.X).(*ast.Ident)
 	return isId
+}
+
+// isFreshConstructorCall: a call of a repository function every return of which
+// is a fresh literal (NewDependencyGraphWithCapacity(n)).
+func isFreshConstructorCall(info *types.Info, c *ast.CallExpr) bool {
+	cal := callee(info, c)
+	if cal == nil || theWorld == nil {
+		return false
+	}
+	t := theWorld.Decls[cal]
+	return t != nil && t.Decl.Recv == nil && returnsFreshLiteral(t)
+}
+
+// keepsReceiverPrivate: every use of the receiver in the method is the base of
+// a field selector, or the receiver of another unexported method of which the
+// same holds (depth 2).
+func keepsReceiverPrivate(t *FuncInfo) bool { return keepsReceiverPrivateDepth(t, 2) }
+
+func keepsReceiverPrivateDepth(t *FuncInfo, depth int) bool {
+	if t.Decl.Recv == nil || len(t.Decl.Recv.List[0].Names) != 1 || t.Decl.Body == nil {
+		return false
+	}
+	info := t.Pkg.TypesInfo
+	recv := info.Defs[t.Decl.Recv.List[0].Names[0]]
+	ok := true
+	var stack []ast.Node
+	ast.Inspect(t.Decl.Body, func(m ast.Node) bool {
+		if m == nil {
+			stack = stack[:len(stack)-1]
+			return true
+		}
+		stack = append(stack, m)
+		id, isId := m.(*ast.Ident)
+		if !isId || info.Uses[id] != recv {
+			return true
+		}
+		if len(stack) >= 2 {
+			if p, isSel := stack[len(stack)-2].(*ast.SelectorExpr); isSel && p.X == ast.Expr(id) {
+				if fieldOf(info, p) != nil {
+					return true
+				}
+				if len(stack) >= 3 && depth > 0 {
+					if call, isC := stack[len(stack)-3].(*ast.CallExpr); isC && unparen(call.Fun) == ast.Expr(p) {
+						if cal := callee(info, call); cal != nil && !cal.Exported() && theWorld != nil {
+							if t2 := theWorld.Decls[cal]; t2 != nil && (t2 == t || keepsReceiverPrivateDepth(t2, depth-1)) {
+								return true
+							}
+						}
+					}
+				}
+			}
+		}
+		ok = false
+		return true
+	})
+	return ok
 }
